@@ -8,7 +8,7 @@ import tempfile
 
 import numpy as np
 import dataiter as di
-from dataiter import DataFrame, GeoJSON, ListOfDicts
+from dataiter import DataFrame, GeoJSON, ListOfDicts, Vector
 from .driver import driver
 
 
@@ -95,3 +95,240 @@ alias_driver("read_json", "ListOfDicts.read_json", _w_json,
              [{}, {"keys": ["a"]}, {"keys": ["c", "a"]}, {"types": {"a": "float"}}, {"keys": ["a"], "types": {"a": "str"}}, {"encoding": "utf-8"}])
 alias_driver("read_geojson", "GeoJSON.read", _w_geojson,
              [{}, {"columns": ["a"]}, {"dtypes": {"a": "float"}}, {"columns": ["b", "a"]}, {"encoding": "utf-8"}])
+
+
+# ---- C14 first half: restricting a read never changes what is read (bounded run-time contracts on the real readers) ----
+_TY = {"float": float, "str": str, "int": int, "object": object}
+
+
+def _frame_cols(df):
+    return {c: (str(df[c].dtype), [None if m else (x.item() if hasattr(x, "item") else x) for x, m in zip(df[c], df[c].is_na())])
+            for c in df.colnames}
+
+
+def _orderings(names, maxlen=3):
+    for k in range(1, min(len(names), maxlen) + 1):
+        for combo in itertools.permutations(names, k):
+            yield list(combo)
+
+
+def _w_csv3(d):
+    p = os.path.join(d, "r.csv")
+    DataFrame(a=[1, 2, 3], b=["x", "", "z"], c=[0.5, float("nan"), 2.0]).write_csv(p)
+    return p
+
+
+def _w_parquet3(d):
+    p = os.path.join(d, "r.parquet")
+    DataFrame(a=[1, 2, 3], b=["x", "", "z"], c=[0.5, float("nan"), 2.0]).write_parquet(p)
+    return p
+
+
+def _w_json3(d):
+    p = os.path.join(d, "r.json")
+    with open(p, "w") as f:
+        json.dump([{"a": 1, "b": "x", "c": 0.5}, {"b": "", "a": 2}, {"c": 2.0, "a": 3, "b": "z"}], f)
+    return p
+
+
+def _w_csv_header_only(d):
+    p = os.path.join(d, "h.csv")
+    with open(p, "w") as f:
+        f.write("a,b,c\n")
+    return p
+
+
+def restriction_driver(name, cls, meth, write, colkw, tykw, tymaps, from_string=False, extra_files=()):
+    """reader(path, <restriction>, <types>) == select(reader(path, <types>), restriction), compared name by name"""
+    @driver(name)
+    def _d(run):
+        run.bound = ("one 3-row file with columns a (int), b (str incl. ''), c (float incl. missing); every ordering of every non-empty "
+                     f"subset of the columns x {len(tymaps)} type maps (incl. maps naming unselected columns)"
+                     + ("; plus a header-only file" if extra_files else ""))
+        d = tempfile.mkdtemp(prefix="vfrd")
+        try:
+            paths = [write(d)] + [w(d) for w in extra_files]
+            fn = getattr(cls, meth)
+
+            def read(path, **kw):
+                if from_string:
+                    with open(path) as f:
+                        return fn(f.read(), **kw)
+                return fn(path, **kw)
+            gen = ((pi, cols, tm) for pi in range(len(paths)) for cols in _orderings(["a", "b", "c"]) for tm in tymaps)
+            for pi, cols, tm in run.inputs(gen):
+                inp = [pi, cols, tm]
+                ty = {k: _TY[v] for k, v in tm.items()}
+                try:
+                    full = read(paths[pi], **({tykw: {k: v for k, v in ty.items()}} if ty else {}))
+                except Exception as e:
+                    continue        # the unrestricted read with this type map fails: nothing to compare with
+                try:
+                    got = read(paths[pi], **{colkw: list(cols)}, **({tykw: ty} if ty else {}))
+                except Exception as e:
+                    run.check(inp, False, expected="the selected columns of the full read", got=f"raised {type(e).__name__}: {e}",
+                              clause="restricted read answers whenever the full read does")
+                    continue
+                if isinstance(full, DataFrame):
+                    exp = {c: v for c, v in _frame_cols(full).items() if c in cols or c == "geometry"}
+                    obs = _frame_cols(got)
+                    ok = exp == obs
+                else:
+                    exp = [{k: v for k, v in item.items() if k in cols} for item in full]
+                    obs = [dict(x) for x in got]
+                    ok = exp == obs and all(type(a[k]) is type(b[k]) for a, b in zip(exp, obs) for k in a)
+                run.check(inp, ok, expected=exp, got=obs, clause="every requested column/key holds its own values (any requested order), cast as in the full read")
+        finally:
+            shutil.rmtree(d, ignore_errors=True)
+    return _d
+
+
+_DF_TYMAPS = [{}, {"a": "float"}, {"c": "float"}, {"a": "float", "b": "object"}]
+_LOD_TYMAPS = [{}, {"a": "float"}, {"a": "str"}, {"c": "str", "a": "float"}]
+restriction_driver("dataiter/data_frame.py::DataFrame.read_csv[restriction]", DataFrame, "read_csv", _w_csv3, "columns", "dtypes", _DF_TYMAPS)
+restriction_driver("dataiter/data_frame.py::DataFrame.read_parquet[restriction]", DataFrame, "read_parquet", _w_parquet3, "columns", "dtypes", _DF_TYMAPS)
+restriction_driver("dataiter/data_frame.py::DataFrame.read_json[restriction]", DataFrame, "read_json", _w_json3, "columns", "dtypes", _DF_TYMAPS)
+restriction_driver("dataiter/data_frame.py::DataFrame.from_json[restriction]", DataFrame, "from_json", _w_json3, "columns", "dtypes", _DF_TYMAPS, from_string=True)
+restriction_driver("dataiter/list_of_dicts.py::ListOfDicts.read_csv[restriction]", ListOfDicts, "read_csv", _w_csv3, "keys", "types", _LOD_TYMAPS,
+                   extra_files=(_w_csv_header_only,))
+restriction_driver("dataiter/list_of_dicts.py::ListOfDicts.read_json[restriction]", ListOfDicts, "read_json", _w_json3, "keys", "types", _LOD_TYMAPS)
+restriction_driver("dataiter/list_of_dicts.py::ListOfDicts.from_json[restriction]", ListOfDicts, "from_json", _w_json3, "keys", "types", _LOD_TYMAPS, from_string=True)
+
+
+def _w_geojson3(d):
+    p = os.path.join(d, "r.geojson")
+    doc = {"type": "FeatureCollection", "name": "n", "features": [
+        {"type": "Feature", "properties": {"a": 1, "b": "x", "c": 0.5}, "geometry": {"type": "Point", "coordinates": [1, 2]}},
+        {"type": "Feature", "properties": {"b": "", "a": 2}, "geometry": None},
+        {"type": "Feature", "properties": {"c": 2.0, "a": 3, "b": "z"}, "geometry": {"type": "Point", "coordinates": [3, 4]}}]}
+    with open(p, "w") as f:
+        json.dump(doc, f)
+    return p
+
+
+restriction_driver("dataiter/geojson.py::GeoJSON.read[restriction]", GeoJSON, "read", _w_geojson3, "columns", "dtypes", _DF_TYMAPS)
+
+
+# ---- C06: every public non-in-place method of DataFrame / Vector: receiver and arguments unchanged, result shares no memory ----
+def _arrays_of(obj):
+    """all NumPy arrays reachable in a result (frames, vectors, lists / tuples / dicts of them)"""
+    if isinstance(obj, DataFrame):
+        return list(obj.columns)
+    if isinstance(obj, np.ndarray):
+        return [obj]
+    if isinstance(obj, (list, tuple)):
+        return [a for x in obj for a in _arrays_of(x)]
+    if isinstance(obj, dict):
+        return [a for x in obj.values() for a in _arrays_of(x)]
+    return []
+
+
+def _snap(obj):
+    if isinstance(obj, DataFrame):
+        return ("frame", [(c, str(obj[c].dtype), [repr(x) for x in obj[c]]) for c in obj.colnames], tuple(obj._group_colnames))
+    if isinstance(obj, np.ndarray):
+        return ("vector", str(obj.dtype), [repr(x) for x in obj], type(obj).__name__)
+    return ("other", repr(obj))
+
+
+def _c06_frames():
+    fix = np.array(["b", "", "a"], "<U1")
+    yield "int/float/str", lambda: DataFrame(g=[2, 1, 2], x=[0.5, float("nan"), 1.5], s=["b", "", "a"])
+    yield "fixed-width string + bool + date", lambda: DataFrame(g=fix.copy(), x=[True, False, True],
+                                                                d=Vector(["2020-01-02", "NaT", "2020-01-01"], "datetime64[D]"))
+    yield "object + int", lambda: DataFrame(g=Vector([None, 1, "x"], object), x=[3, 1, 2])
+    yield "no rows", lambda: DataFrame(g=Vector([], int), x=Vector([], float))
+
+
+_DF_CALLS = {
+    "aggregate": lambda d, o: d.aggregate(n=di.count(), m=lambda x: x.nrow),          # receiver grouped beforehand (see _GROUPED)
+    "anti_join": lambda d, o: d.anti_join(o, "g"), "cbind": lambda d, o: d.cbind(o.rename(g="g2", x="x2").select("g2", "x2")),
+    "compare": lambda d, o: d.compare(o, "g") if d.nrow else None, "count": lambda d, o: d.count("g"),
+    "deepcopy": lambda d, o: d.deepcopy(), "drop_na": lambda d, o: d.drop_na("x"), "filter": lambda d, o: d.filter(d.g == d.g),
+    "filter_out": lambda d, o: d.filter_out(d.g != d.g), "full_join": lambda d, o: d.full_join(o.select("g").unique("g"), "g"),
+    "head": lambda d, o: d.head(2), "inner_join": lambda d, o: d.inner_join(o.select("g").unique("g"), "g"),
+    "left_join": lambda d, o: d.left_join(o.select("g").unique("g").modify(z=lambda x: x.g), "g"), "map": lambda d, o: d.map(lambda x: x),
+    "modify": lambda d, o: d.modify(y=lambda x: x.x), "modify (grouped)": lambda d, o: d.modify(y=lambda x: x.nrow),
+    "rbind": lambda d, o: d.rbind(o), "rename": lambda d, o: d.rename(h="g"), "sample": lambda d, o: d.sample(2),
+    "select": lambda d, o: d.select("x", "g"), "semi_join": lambda d, o: d.semi_join(o, "g"), "slice": lambda d, o: d.slice(list(range(d.nrow))),
+    "slice_off": lambda d, o: d.slice_off([]), "sort": lambda d, o: d.sort(g=1), "sort (descending)": lambda d, o: d.sort(g=-1, x=1),
+    "split": lambda d, o: d.split("g"), "tail": lambda d, o: d.tail(2), "to_list_of_dicts": lambda d, o: d.to_list_of_dicts(),
+    "to_json": lambda d, o: d.to_json() if "d" not in d.colnames else None, "to_string": lambda d, o: d.to_string(),
+    "to_pandas": lambda d, o: d.to_pandas(), "to_arrow": lambda d, o: d.to_arrow() if d.g.dtype != object else None,
+    "unique": lambda d, o: d.unique("g"), "unselect": lambda d, o: d.unselect("x"), "update": lambda d, o: d.update(o.select("x")),
+}
+
+
+_GROUPED = ("aggregate", "modify (grouped)")      # group_by marks and returns the receiver (documented exception): done before the snapshot
+
+
+@driver("dataiter/data_frame.py::DataFrame[every public non-in-place method: no mutation, no aliasing]")
+def c06_frames(run):
+    run.bound = (f"{len(_DF_CALLS)} calls x 4 frames (int/float/str; fixed-width string + bool + date; object; no rows): receiver and argument "
+                 "unchanged (names, order, dtypes, values, grouping), result shares no memory with either")
+    frames_ = list(_c06_frames())
+    for name, fi in run.inputs((n, i) for n in _DF_CALLS for i in range(len(frames_))):
+        label, mk = frames_[fi]
+        d, o = mk(), mk()
+        if name in _GROUPED:
+            d.group_by("g")
+        sd, so = _snap(d), _snap(o)
+        try:
+            import contextlib, io
+            with contextlib.redirect_stdout(io.StringIO()):
+                got = _DF_CALLS[name](d, o)
+        except Exception as e:
+            continue          # not applicable to this frame (e.g. JSON of dates): nothing returned, but inputs must still be intact
+        finally:
+            run.check([name, fi], _snap(d) == sd and _snap(o) == so, expected=[sd, so], got=[_snap(d), _snap(o)],
+                      clause=f"{name}: receiver and argument unchanged")
+        shared = [1 for a in _arrays_of(got) for inp in (d, o) for c in inp.columns if np.shares_memory(a, c)]
+        if name == "split" or name.startswith("to_"):
+            shared = []       # index vectors / foreign containers: not views of the data columns by construction, checked below by edit
+        run.check([name, fi], not shared, expected="no shared memory", got=f"{len(shared)} shared buffers", clause=f"{name}: result shares no memory with the inputs")
+        # a later in-place edit of the result is not observable on the inputs
+        for a in _arrays_of(got):
+            if a.flags.writeable and len(a) and a.dtype.kind in "ifb":
+                a[...] = a[::-1].copy() if len(a) > 1 else a
+                a[0] = a[0] + 1 if a.dtype.kind in "if" else not a[0]
+        run.check([name, fi], _snap(d) == sd and _snap(o) == so, expected=[sd, so], got=[_snap(d), _snap(o)],
+                  clause=f"{name}: editing the result in place does not show on the inputs")
+
+
+_V_CALLS = {
+    "as_boolean": lambda v: v.as_boolean(), "as_bytes": lambda v: v.as_bytes(), "as_date": lambda v: v.as_date(), "as_datetime": lambda v: v.as_datetime(),
+    "as_float": lambda v: v.as_float(), "as_integer": lambda v: v.as_integer(), "as_object": lambda v: v.as_object(), "as_string": lambda v: v.as_string(),
+    "concat": lambda v: v.concat(v), "drop_na": lambda v: v.drop_na(), "head": lambda v: v.head(2), "tail": lambda v: v.tail(2),
+    "map": lambda v: v.map(lambda x: x), "range": lambda v: v.range(), "rank": lambda v: v.rank(), "rank (ordinal)": lambda v: v.rank(method="ordinal"),
+    "replace_na": lambda v: v.replace_na(v[0]) if len(v) else v.replace_na(None), "sample": lambda v: v.sample(2), "sort": lambda v: v.sort(),
+    "sort (descending)": lambda v: v.sort(dir=-1), "tolist": lambda v: v.tolist(), "to_string": lambda v: v.to_string(), "to_strings": lambda v: v.to_strings(),
+    "unique": lambda v: v.unique(), "is_na": lambda v: v.is_na(), "equal": lambda v: v.equal(v.copy()), "same dtype conversion": lambda v: Vector(v, v.dtype),
+}
+
+
+def _c06_vectors():
+    yield "int", lambda: Vector([3, 1, 2], int)
+    yield "float + NaN", lambda: Vector([0.5, float("nan"), -1.5], float)
+    yield "string + ''", lambda: Vector(["b", "", "a"], str)
+    yield "fixed-width string", lambda: Vector(np.array(["b", "", "a"], "<U1"))
+    yield "bool", lambda: Vector([True, False, True], bool)
+    yield "date + NaT", lambda: Vector(["2020-01-02", "NaT", "2020-01-01"], "datetime64[D]")
+    yield "object + None", lambda: Vector([None, 1, "x"], object)
+    yield "empty", lambda: Vector([], float)
+
+
+@driver("dataiter/vector.py::Vector[every public non-in-place method: no mutation, no aliasing]")
+def c06_vectors(run):
+    run.bound = f"{len(_V_CALLS)} calls x 8 vectors (int, float+NaN, string+'', fixed-width string, bool, date+NaT, object+None, empty)"
+    vs = list(_c06_vectors())
+    for name, vi in run.inputs((n, i) for n in _V_CALLS for i in range(len(vs))):
+        v = vs[vi][1]()
+        sv = _snap(v)
+        try:
+            got = _V_CALLS[name](v)
+        except Exception:
+            continue          # conversion not applicable to this dtype
+        finally:
+            run.check([name, vi], _snap(v) == sv, expected=sv, got=_snap(v), clause=f"{name}: receiver unchanged")
+        arrs = _arrays_of(got)
+        run.check([name, vi], not any(np.shares_memory(a, v) for a in arrs), expected="no shared memory", got="shared", clause=f"{name}: result shares no memory with the receiver")
